@@ -409,6 +409,23 @@ func (n *Node) AnnounceTip() {
 	}
 }
 
+// AnnounceHeader broadcasts only the header of the tip.
+func (n *Node) AnnounceHeader() {
+	if b, ok := n.CM.Block(n.CM.Tip().ID); ok {
+		n.S.BroadcastV2Header(b.Header())
+	}
+}
+
+// PeerSynced reports whether n has a live peer on host ip that it has marked synced.
+func (n *Node) PeerSynced(ip string) bool {
+	for _, p := range n.S.Peers() {
+		if hostOf(p.ConnAddr) == ip && p.Err() == nil && p.Synced() {
+			return true
+		}
+	}
+	return false
+}
+
 // Tips returns the sequence of tips reported to OnReorg.
 func (n *Node) Tips() []types.ChainIndex {
 	n.tipMu.Lock()
